@@ -717,9 +717,9 @@ def check_names(ctx, R="C05.names"):
 
 
 def check(ctx):
-    check_lifting(ctx)
-    check_containers(ctx)
-    check_evaluate_inner(ctx)
-    check_shortcuts(ctx)
-    check_support(ctx)
-    check_names(ctx)
+    ctx.run(check_lifting)
+    ctx.run(check_containers)
+    ctx.run(check_evaluate_inner)
+    ctx.run(check_shortcuts)
+    ctx.run(check_support)
+    ctx.run(check_names)
